@@ -35,6 +35,13 @@ CLAIMED = {
          "proton = identity; every kernel is rotated exactly once; the target table parsed from compatibility.py equals the documented one and unknown names are rejected. "
          "Target runs are compared with rotated proton runs on every run.",
          "Trusted: Coq kernel+vm_compute; tools/tables.py; harness; model tied by sampled correspondence (the aliasing defect fixed in b62348b2 was found by it).", "4 C12"),
+ "C14": ("Coq theorem by induction over the operation list (invariant + injectivity of the by-name key) on a hand-written model of the StructureFunction cache; "
+         "tied by differential correspondence of get_esf / drop_cache traces on the real class; the positional key of the pinned tree is refuted by a vm_compute witness",
+         "Proof: for every sequence of requests and cache drops (any order, duplicates, both dict key orders, raw/TMC) each request is served with an object created for the "
+         "same point and TMC flag (history_independent), resting on key_injective; the positional key is refuted (the witness reproduced the defect fixed in c2f18abb). "
+         "Real runs compare every slot of shuffled multi-observable histories bit-for-bit with the point requested alone.",
+         "Trusted: Coq kernel+vm_compute; harness; that an object's result depends only on its own kinematics and the configuration is assumed by the theorem and checked "
+         "bitwise by the patrol and by the ScaleVariations correspondence (shared manager across nf).", "4 C14"),
  "C06": ("Coq theorems (case analysis, Qle reasoning) on a hand-written model of update_fns / Atlas walls / nf_default over rationals + infinity; "
          "update_fns tied exhaustively, nf_default by correspondence at, one ulp below and above every wall",
          "Proof: nf_default = 3 + #{heavy quarks with matching scale <= Q2} for every rational Q2 >= 0 (active exactly at the threshold, inactive below), monotone; "
